@@ -327,7 +327,7 @@ def observe(cfg):
     # A rule that is numerically linear but cuts the dependence on g for special values of g (a mask on g == 0, a branch on its sign)
     # is exact at first order and silently wrong as soon as the cotangent is itself differentiated (nested / higher-order use).
     adj["lin0_vjp"], adj["lin0_jvp"], adj["lin0_checked"] = 0, 0, 0
-    if not kink and cfg["id"] % 2 == 0 and not single:
+    if not kink and (cfg["id"] % 2 == 0 or cfg["fam"] == "linalg") and not single:
         if RR is not None and m > 0 and not v.get("late"):
             c1 = rs.randint(-3, 4, m).astype(float)
             gdir = onp.conj(unreal(c1, y0))
